@@ -40,6 +40,14 @@ Store(i) ==
   /\ stored' = stored \cup {i}
   /\ Log([a |-> "store", uri |-> UriSeq[i].uri, exp |-> UriSeq[i].exp, local |-> UriSeq[i].local])
 
+\* URI i arrives as an entity id inside a payload whose OWN context writes it as a CURIE with a local prefix of
+\* the hub's naming scheme ("ns<N>") that the hub itself has handed out for a DIFFERENT expansion (what another
+\* hub's output looks like).  The payload's binding decides what the identifier denotes: same effect as Store(i).
+Payload(i) ==
+  /\ known' = known \cup {UriSeq[i].exp}
+  /\ stored' = stored \cup {i}
+  /\ Log([a |-> "payload", uri |-> UriSeq[i].uri, exp |-> UriSeq[i].exp, local |-> UriSeq[i].local])
+
 Restart ==
   /\ hist # <<>>
   /\ IF hist = <<>> THEN FALSE ELSE hist[Len(hist)].a # "restart"
@@ -49,7 +57,7 @@ Restart ==
 Init == known = {} /\ stored = {} /\ hist = <<>>
 Next ==
   /\ Len(hist) < MaxSteps
-  /\ \/ \E i \in U : Curie(i) \/ Store(i)
+  /\ \/ \E i \in U : Curie(i) \/ Store(i) \/ Payload(i)
      \/ Restart
 Spec == Init /\ [][Next]_nvars
 
